@@ -511,14 +511,37 @@ impl IntoIterator for OutputList {
     }
 }
 
+/// XML comments must not contain `--` or end with `-`. Comments copied from
+/// the input already satisfy this; generated ones (from `_` / `__` attributes
+/// or debug info) can contain anything, so break up any such sequence.
+fn comment_safe(mut comment: String) -> String {
+    while comment.contains("--") {
+        comment = comment.replace("--", "- -");
+    }
+    if comment.ends_with('-') {
+        comment.push(' ');
+    }
+    comment
+}
+
+/// A CDATA section ends at the first `]]>`, so split any occurrence in the
+/// content across two sections.
+fn cdata_safe(content: String) -> String {
+    if content.contains("]]>") {
+        content.replace("]]>", "]]]]><![CDATA[>")
+    } else {
+        content
+    }
+}
+
 impl<'a> From<OutputEvent> for Event<'a> {
     fn from(svg_ev: OutputEvent) -> Event<'a> {
         match svg_ev {
             OutputEvent::Empty(e) => Event::Empty(e.into_bytesstart()),
             OutputEvent::Start(e) => Event::Start(e.into_bytesstart()),
-            OutputEvent::Comment(t) => Event::Comment(BytesText::from_escaped(t)),
+            OutputEvent::Comment(t) => Event::Comment(BytesText::from_escaped(comment_safe(t))),
             OutputEvent::Text(t) => Event::Text(BytesText::from_escaped(t)),
-            OutputEvent::CData(t) => Event::CData(BytesCData::new(t)),
+            OutputEvent::CData(t) => Event::CData(BytesCData::new(cdata_safe(t))),
             OutputEvent::End(name) => Event::End(BytesEnd::new(name)),
             OutputEvent::Other(e) => e,
         }
